@@ -247,7 +247,8 @@ int main(int argc, char** argv) {
   std::string dir = a.repo + "/testdata/zoneinfo";
   for (auto& n : glue::shipped_zone_names(dir)) zs.push_back({n, glue::read_file(dir + "/" + n)});
   tzgen::GenStats st;
-  for (auto& g : tzgen::family(a.thorough(), &st)) zs.push_back({g.id, g.bytes});
+  // the quick family in both tiers: the thorough tier spends its budget on the COMPLETE probe panel in every state
+  for (auto& g : tzgen::family(false, &st)) zs.push_back({g.id, g.bytes});
   if (a.has("--zone")) {
     for (auto& z : zs) if (z.id == a.get("--zone")) hint_part(z, true, total);
     return hz::finish(a, total);
